@@ -611,7 +611,7 @@ func run(c *fw.Ctx) error {
 	for i := range jobs {
 		anys[i] = jobs[i]
 	}
-	results := c.RunChildren("c09", anys, 12, 15*time.Second, nil)
+	results := c.RunChildren("c09", anys, 12, 60*time.Second, nil)
 	// assemble the concatenated traces: groups of 300 runs, validated by parallel TLC runs
 	byRun := map[string]result{}
 	type group struct {
